@@ -4,9 +4,16 @@ package app
 
 import (
 	"errors"
+	"io"
+	"net/http"
+	"os"
 
+	"github.com/gorilla/mux"
 	"github.com/openebs/jiva/replica"
+	"github.com/openebs/jiva/replica/rest"
+	"github.com/openebs/jiva/replica/rpc"
 	"github.com/openebs/jiva/sync"
+	"github.com/urfave/cli"
 )
 
 var zzStatusLog []string
@@ -50,5 +57,77 @@ func ZZ_C19_AppClone() {
 		zzAssert(err == nil && completed, "C19.successful-clone-not-marked-completed")
 	} else {
 		zzAssert(err != nil, "C19.status-write-failure-swallowed")
+	}
+}
+
+// ---- the process wiring of `jiva replica` (startReplica) -------------------------
+// Everything startReplica sets up around the clone step is environment: command-line
+// flags, listeners, the registration goroutine.  The stubs below give it a server whose
+// replica is open and let the three listeners block as they do in a healthy process.
+
+var zzFlags map[string]string
+var zzPrevStatus string
+
+func zzCtxNArg(c *cli.Context) int                 { return 1 }
+func zzCtxArgs(c *cli.Context) cli.Args            { return cli.Args{"/var/zz-replica"} }
+func zzCtxString(c *cli.Context, n string) string  { return zzFlags[n] }
+func zzCtxBool(c *cli.Context, n string) bool      { return false }
+func zzCtxInt(c *cli.Context, n string) int        { return 0 }
+func zzGetenv(k string) string                     { return "" }
+func zzMkdir(p string, m os.FileMode) error        { return nil }
+func zzCreateHoles()                               {}
+func zzServerCreate(s *replica.Server, sz int64) error { return nil }
+func zzRestNewServer(s *replica.Server) *rest.Server   { return nil }
+func zzRestNewRouter(s *rest.Server) *mux.Router       { return nil }
+func zzFilteredLoggingHandler(f map[string]struct{}, w io.Writer, h http.Handler) http.Handler {
+	return nil
+}
+func zzListenAndServe(addr string, h http.Handler) error { var never chan error; return <-never }
+func zzRPCNew(addr string, s *replica.Server) *rpc.Server { return nil }
+func zzRPCListenAndServe(s *rpc.Server) error             { var never chan error; return <-never }
+func zzAutoConfigureReplica(s *replica.Server, frontendIP, address, replicaType string) {}
+func zzGetCloneStatus(r *replica.Replica) string          { return zzPrevStatus }
+
+// C19: a replica process started as a clone reports "completed" only after the clone
+// succeeded; when the clone fails (source interrupted, snapshot missing, a step of the
+// orchestration failing) it ends up reporting "error" - never "completed" - and
+// startReplica returns the failure.  A restart of an already completed clone does not
+// clone again.
+func ZZ_C19_StartReplicaClone() {
+	zzStatusLog = nil
+	zzCloneFails = zzNondetBool("clone.fails")
+	zzStatusFails = false
+	zzPrevStatus = zzPick("status.at.start", "", "inProgress", "completed", "error")
+	zzFlags = map[string]string{"type": "clone", "listen": "10.0.0.9:9502", "frontendIP": "", "cloneIP": "10.0.0.1", "snapName": "s1", "size": ""}
+	var err error
+	done := make(chan bool, 1)
+	go func() {
+		err = startReplica(&cli.Context{})
+		done <- true
+	}()
+	zzSettle()
+	last := ""
+	completed := false
+	for _, s := range zzStatusLog {
+		last = s
+		if s == "completed" {
+			completed = true
+		}
+	}
+	if zzPrevStatus == "completed" {
+		zzReach("C19.start.already-completed")
+		zzAssert(last == "completed" || last == "", "C19.start.completed-clone-lost-its-status")
+		return
+	}
+	if zzCloneFails {
+		zzReach("C19.start.clone-failed")
+		zzAssert(!completed, "C19.start.failed-clone-reported-completed")
+		zzAssert(last == "error", "C19.start.failed-clone-not-reported-as-error")
+		zzAssert(len(done) == 1 && err != nil, "C19.start.failed-clone-did-not-stop-the-replica-with-an-error")
+	} else {
+		zzReach("C19.start.clone-ok")
+		zzAssert(last == "completed", "C19.start.successful-clone-not-reported-completed")
+		zzAssert(len(zzStatusLog) > 0 && zzStatusLog[0] == "inProgress", "C19.start.clone-not-marked-inProgress-first")
+		zzAssert(len(done) == 0, "C19.start.replica-process-ended-after-successful-clone")
 	}
 }
